@@ -1247,3 +1247,50 @@ fn start_introspection(
     tokio::spawn(task.with_budget_or_default(coop_budget));
     resolver
 }
+
+/// Add-only hook for the external verification harness (feature `verif_hooks`, off by default): the route table
+/// of a running server, assembled from the same pieces as in `SwimServer::run_server` (`Routes::from_iter` over the
+/// plane's routes, then `register_introspection` appending the meta-agent routes) and resolved with
+/// `Routes::find_route`.
+#[cfg(feature = "verif_hooks")]
+pub mod verif {
+    use std::collections::HashMap;
+
+    use swimos_introspection::{register_introspection, IntrospectionConfig};
+    use swimos_utilities::routing::{RoutePattern, RouteUri};
+    use swimos_utilities::trigger;
+
+    use super::Routes;
+    use crate::plane::PlaneModel;
+
+    pub struct RouteTable(Routes);
+
+    impl RouteTable {
+        pub fn new(plane: PlaneModel, introspection: Option<IntrospectionConfig>) -> Self {
+            let mut routes: Routes = plane.routes.into_iter().collect();
+            if let Some(config) = introspection {
+                let (_stop_tx, stop_rx) = trigger::trigger();
+                let _ = register_introspection(stop_rx, config, &mut routes);
+            }
+            RouteTable(routes)
+        }
+
+        /// The patterns in resolution order.
+        pub fn patterns(&self) -> Vec<RoutePattern> {
+            let RouteTable(Routes(routes)) = self;
+            routes.iter().map(|r| r.pattern.clone()).collect()
+        }
+
+        /// `Routes::find_route`: position of the route that was chosen and the bindings.
+        pub fn find_route(&self, node: &RouteUri) -> Option<(usize, HashMap<String, String>)> {
+            let RouteTable(table) = self;
+            let Routes(routes) = table;
+            table.find_route(node).and_then(|(route, params)| {
+                routes
+                    .iter()
+                    .position(|r| std::ptr::eq(r, route))
+                    .map(|i| (i, params))
+            })
+        }
+    }
+}
